@@ -626,3 +626,414 @@ Proof.
   intros e m x u H Hp Hs Hn Hnone.
   destruct (snap_socket_only_gated e m x u H Hp Hs) as [A|(names & _ & (sn' & c & S & _))]; [contradiction|congruence].
 Qed.
+
+(* ================================================================================================ attach: the full statement *)
+
+Definition not_amp (c : N) : bool := negb (c =? amp).
+
+Lemma split_amp_nonempty : forall g, split_amp g <> [].
+Proof.
+  induction g as [|c g IH]; cbn [split_amp]; [discriminate|].
+  destruct (c =? amp); [discriminate|]. destruct (split_amp g); discriminate.
+Qed.
+
+Lemma split_amp_plain : forall x, forallb not_amp x = true -> split_amp x = [x].
+Proof.
+  induction x as [|c x IH]; intro H; [reflexivity|].
+  cbn [forallb] in H. apply andb_true_iff in H. destruct H as [Hc Hx].
+  cbn [split_amp]. unfold not_amp in Hc. apply negb_true_iff in Hc. rewrite Hc. rewrite (IH Hx). reflexivity.
+Qed.
+
+Lemma split_amp_app : forall a b, split_amp (a ++ amp :: b) = split_amp a ++ split_amp b.
+Proof.
+  induction a as [|c a IH]; intro b.
+  - cbn [app split_amp]. rewrite N.eqb_refl. reflexivity.
+  - cbn [app split_amp]. destruct (c =? amp).
+    + rewrite IH. reflexivity.
+    + rewrite IH. pose proof (split_amp_nonempty a) as Hn. destruct (split_amp a) as [|f fs]; [congruence|]. reflexivity.
+Qed.
+
+Lemma split_amp_fields_plain : forall g, Forall (fun f => forallb not_amp f = true) (split_amp g).
+Proof.
+  induction g as [|c g IH]; cbn [split_amp].
+  - constructor; [reflexivity|constructor].
+  - destruct (c =? amp) eqn:E.
+    + constructor; [reflexivity|exact IH].
+    + pose proof (split_amp_nonempty g) as Hn. destruct (split_amp g) as [|f fs]; [congruence|].
+      inversion IH; subst. constructor; [|assumption].
+      cbn [forallb]. unfold not_amp at 1. rewrite E. cbn. assumption.
+Qed.
+
+Lemma join_amp_snoc : forall l i, l <> [] -> join_amp (l ++ [i]) = join_amp l ++ amp :: i.
+Proof.
+  induction l as [|x l IH]; intros i Hn; [congruence|].
+  destruct l as [|y l].
+  - reflexivity.
+  - change ((x :: y :: l) ++ [i]) with (x :: (y :: l) ++ [i]).
+    change (join_amp (x :: (y :: l) ++ [i])) with (x ++ amp :: join_amp ((y :: l) ++ [i])).
+    rewrite IH by discriminate.
+    change (join_amp (x :: y :: l)) with (x ++ amp :: join_amp (y :: l)).
+    rewrite <- app_assoc. reflexivity.
+Qed.
+
+Lemma split_join_plain : forall l, l <> [] -> Forall (fun f => forallb not_amp f = true) l -> split_amp (join_amp l) = l.
+Proof.
+  induction l as [|x l IH]; intros Hn F; [congruence|].
+  inversion F; subst. destruct l as [|y l].
+  - cbn [join_amp]. apply split_amp_plain. assumption.
+  - change (join_amp (x :: y :: l)) with (x ++ amp :: join_amp (y :: l)).
+    rewrite split_amp_app. rewrite split_amp_plain by assumption. rewrite IH by (discriminate || assumption). reflexivity.
+Qed.
+
+Lemma split_join_snoc : forall g i, split_amp (join_amp (split_amp g ++ [i])) = split_amp g ++ split_amp i.
+Proof.
+  intros g i. rewrite join_amp_snoc by apply split_amp_nonempty.
+  rewrite split_amp_app. rewrite split_join_plain; [reflexivity|apply split_amp_nonempty|apply split_amp_fields_plain].
+Qed.
+
+(* FULL: attaching i (any bytes without ;) to ANY accepted address -- fresh, or already carrying any attachment string --
+   keeps pid, uid and socket, and the interface list read back afterwards is the old one if i was already in it, else the
+   old one followed by the &-separated fields of i *)
+Theorem attach_full : forall s u l i,
+  ucrednet_get_with_interfaces s = Some (u, l) -> forallb not_semi i = true ->
+  ucrednet_get_with_interfaces (ucrednet_attach_interface s i) = Some (u, if mem i l then l else l ++ split_amp i).
+Proof.
+  intros s u l i G Hi. apply get_with_ifaces_some in G.
+  destruct G as (pd & ud & ifs & C & U1 & U2 & R1 & R2 & ->).
+  unfold ucrednet_attach_interface. rewrite (match_raddr_complete _ _ _ _ _ C). cbn [ra_iface].
+  destruct C as (Dp & Du & Hs & Hg & E).
+  destruct ifs as [g|].
+  - destruct (mem i (split_amp g)) eqn:Mm.
+    + apply (peer_get_with_ifaces s u pd ud (Some g)); auto. unfold cred_string. auto.
+    + rewrite <- split_join_snoc.
+      apply (peer_get_with_ifaces _ u pd ud (Some (join_amp (split_amp g ++ [i])))); auto.
+      unfold cred_string, raddr_prefix. cbn [ra_pid ra_uid ra_socket iface_tail].
+      repeat split; auto; try apply Dp; try apply Du.
+      * apply join_amp_forall; [reflexivity|]. apply Forall_app. split; [apply split_amp_forall; exact Hg|].
+        constructor; [exact Hi|constructor].
+      * rewrite <- !app_assoc. reflexivity.
+  - cbn [mem app].
+    apply (peer_get_with_ifaces _ u pd ud (Some i)); auto.
+    unfold cred_string. repeat split; auto; try apply Dp; try apply Du.
+    rewrite E. cbn [iface_tail]. rewrite <- !app_assoc. cbn [app]. reflexivity.
+Qed.
+
+(* for a proper interface name (no ; and no &) the list simply grows by that name, once *)
+Corollary attach_full_plain : forall s u l i,
+  ucrednet_get_with_interfaces s = Some (u, l) -> forallb not_semi i = true -> forallb not_amp i = true ->
+  ucrednet_get_with_interfaces (ucrednet_attach_interface s i) = Some (u, if mem i l then l else l ++ [i]).
+Proof.
+  intros s u l i G Hs Ha. rewrite (attach_full s u l i G Hs). rewrite (split_amp_plain i Ha). reflexivity.
+Qed.
+
+Lemma mem_app_r : forall x l, mem x (l ++ [x]) = true.
+Proof. intros x l. apply mem_In. apply in_or_app. right. left. reflexivity. Qed.
+
+(* attaching the same proper name twice changes nothing the second time (string level) *)
+Theorem attach_idempotent : forall s u l i,
+  ucrednet_get_with_interfaces s = Some (u, l) -> forallb not_semi i = true -> forallb not_amp i = true ->
+  ucrednet_attach_interface (ucrednet_attach_interface s i) i = ucrednet_attach_interface s i.
+Proof.
+  intros s u l i G Hs Ha.
+  pose proof (attach_full_plain s u l i G Hs Ha) as G'.
+  set (s' := ucrednet_attach_interface s i) in *.
+  assert (Hm : mem i (if mem i l then l else l ++ [i]) = true).
+  { destruct (mem i l) eqn:M; [exact M|apply mem_app_r]. }
+  apply get_with_ifaces_some in G'. destruct G' as (pd & ud & ifs & C & _ & _ & _ & _ & L).
+  unfold ucrednet_attach_interface at 1. rewrite (match_raddr_complete _ _ _ _ _ C). cbn [ra_iface].
+  destruct ifs as [g|].
+  - rewrite <- L. rewrite Hm. reflexivity.
+  - rewrite L in Hm. cbn in Hm. discriminate.
+Qed.
+
+(* ---- why the guards are there: the unguarded statements are false of the faithful model (replayed on the code) ---- *)
+
+Definition wit_u (sock : bytes) : ucred := mkUcred 42 1000 sock.
+
+(* a socket path containing ;iface=y; reads back as ANOTHER socket with a forged attachment *)
+Lemma roundtrip_semicolon_socket_refuted :
+  ucrednet_get_with_interfaces (print_ucred (wit_u (bs "x;iface=y"))) = Some (wit_u (bs "x"), [bs "y"]).
+Proof. vm_compute. reflexivity. Qed.
+
+(* ... and one containing a bare ; reads back as no credentials at all *)
+Lemma roundtrip_semicolon_socket_lost : ucrednet_get_with_interfaces (print_ucred (wit_u (bs "a;b"))) = None.
+Proof. vm_compute. reflexivity. Qed.
+
+(* an interface string containing & comes back as two interfaces, and attaching it again doubles them *)
+Lemma attach_amp_refuted :
+  ucrednet_get_with_interfaces (ucrednet_attach_interface (print_ucred (wit_u snap_socket)) (bs "a&b"))
+    = Some (wit_u snap_socket, [bs "a"; bs "b"]) /\
+  ucrednet_get_with_interfaces (ucrednet_attach_interface (ucrednet_attach_interface (print_ucred (wit_u snap_socket)) (bs "a&b")) (bs "a&b"))
+    = Some (wit_u snap_socket, [bs "a"; bs "b"; bs "a"; bs "b"]).
+Proof. split; vm_compute; reflexivity. Qed.
+
+(* an interface string containing ; destroys the credentials (the address no longer parses: every checker then denies) *)
+Lemma attach_semicolon_refuted :
+  ucrednet_get_with_interfaces (ucrednet_attach_interface (print_ucred (wit_u snap_socket)) (bs "a;iface=b")) = None.
+Proof. vm_compute. reflexivity. Qed.
+
+(* ================================================================================================ the decision is EXACTLY the level *)
+
+Lemma auth_tail_complete : forall x u k, authenticated x u k -> auth_tail x u k = None.
+Proof.
+  unfold authenticated, auth_tail, check_polkit_action. intros x u k [A|[A|[A1 A2]]].
+  - rewrite A. reflexivity.
+  - destruct (x_user x); [reflexivity|]. rewrite A. reflexivity.
+  - destruct (x_user x); [reflexivity|]. destruct (u_uid u =? 0); [reflexivity|].
+    destruct k; [congruence|]. cbn [is_nil_b negb]. rewrite A2. reflexivity.
+Qed.
+
+Lemma connected_matching : forall x names sn, x_snap_of_pid x = Some sn -> connected x names ->
+  matching_conns x sn names <> [].
+Proof.
+  intros x names sn Hs (sn' & c & S & Hin & Hp & Hi & Hu & Hg). rewrite Hs in S. injection S as S'. rewrite <- S' in Hp.
+  unfold matching_conns. intro E.
+  assert (Hf : In c (filter (fun c => conn_active c && mem (c_iface c) names && beq (c_plug_snap c) sn) (x_conns x))).
+  { apply filter_In. split; [exact Hin|]. unfold conn_active. rewrite Hu, Hg. cbn [orb negb andb].
+    rewrite (proj2 (mem_In _ _) Hi). rewrite Hp. rewrite abeq_refl. reflexivity. }
+  destruct (filter _ (x_conns x)); [contradiction|]. cbn in E. discriminate.
+Qed.
+
+Lemma snapd_not_snap : beq snap_socket snapd_socket = false.
+Proof. vm_compute. reflexivity. Qed.
+
+Lemma require_iface_complete : forall x r u names,
+  (u_socket u = snapd_socket \/ (u_socket u = snap_socket /\ connected x names)) ->
+  exists r', require_interface_api_access x r (Some u) names = (None, r').
+Proof.
+  unfold require_interface_api_access. intros x r u names [H|[H C]].
+  - rewrite H, abeq_refl. eauto.
+  - rewrite H. rewrite snapd_not_snap, abeq_refl.
+    destruct C as (sn & c & S & Rest). rewrite S.
+    pose proof (connected_matching x names sn S (ex_intro _ sn (ex_intro _ c (conj S Rest)))) as Hn.
+    destruct (matching_conns x sn names) eqn:M; [congruence|]. cbn [is_nil_b]. eauto.
+Qed.
+
+Lemma check_access_complete : forall a x r u, level_ok a x u -> exists r', check_access a x r (Some u) = (None, r').
+Proof.
+  intros a x r u L. destruct a as [| |k| | |names|names k]; cbn [level_ok check_access require_snapd_socket] in *.
+  - contradiction.
+  - rewrite L, abeq_refl. eauto.
+  - destruct L as [L A]. rewrite L, abeq_refl. rewrite (auth_tail_complete _ _ _ A). eauto.
+  - destruct L as [L A]. rewrite L, abeq_refl. rewrite A. cbn. eauto.
+  - rewrite L, abeq_refl. eauto.
+  - apply require_iface_complete. exact L.
+  - destruct L as [L A]. destruct (require_iface_complete x r u names L) as (r' & R). rewrite R.
+    rewrite (auth_tail_complete _ _ _ A). eauto.
+Qed.
+
+(* MAIN, both directions, for ANY endpoint record: the handler runs EXACTLY when the verb is registered, the daemon is
+   not degraded (or the verb is GET) and the request carries peer credentials satisfying the level declared for the verb *)
+Theorem decision_is_declared_level : forall e m x,
+  fst (serve e m x) = Handler <->
+  (registered e m = true /\ allowed (declared e m) x /\ (x_degraded x = true -> m = GET)).
+Proof.
+  intros e m x. split; [apply served_implies_declared|].
+  intros (R & (u & Hp & L) & D). unfold serve.
+  assert (Dg : x_degraded x && negb (is_get m) = false).
+  { destruct (x_degraded x); [|reflexivity]. rewrite (D eq_refl). reflexivity. }
+  rewrite Dg, R. cbn [negb]. rewrite (peer_get x u Hp).
+  destruct (check_access_complete (declared e m) x (x_remote x) u L) as (r' & C).
+  destruct (declared e m) eqn:A; [cbn in L; contradiction| | | | | |]; rewrite C; reflexivity.
+Qed.
+
+(* ================================================================================================ writes from the snap socket *)
+
+Fixpoint lb_eqb (a b : list bytes) : bool :=
+  match a, b with
+  | [], [] => true
+  | x :: a', y :: b' => beq x y && lb_eqb a' b'
+  | _, _ => false
+  end.
+
+Lemma lb_eqb_eq : forall a b, lb_eqb a b = true -> a = b.
+Proof.
+  induction a as [|x a IH]; destruct b as [|y b]; cbn; intro H; try discriminate; [reflexivity|].
+  apply andb_true_iff in H. destruct H as [H1 H2]. apply abeq_true_iff in H1. rewrite (IH _ H2), H1. reflexivity.
+Qed.
+
+(* computed on the generated table: the only write levels that admit the snap socket are snapAccess on /v2/snapctl and
+   interfaceAuthenticatedAccess{snap-themes-control, manage} on /v2/accessories/themes *)
+Definition snap_write_ok (e : endpoint) : bool :=
+  negb (ep_put e || ep_post e) ||
+  match ep_write e with
+  | ASnap => beq (ep_path e) (bs "/v2/snapctl")
+  | AIfaceAuth n k => beq (ep_path e) (bs "/v2/accessories/themes") && lb_eqb n [if_themes] && beq k pk_manage
+  | AIfaceOpen _ => false
+  | _ => true
+  end.
+
+Lemma table_snap_writes : forallb snap_write_ok api = true.
+Proof. vm_compute. reflexivity. Qed.
+
+(* on the actual table: a PUT/POST arriving on the snap socket reaches a handler only at /v2/snapctl, or at
+   /v2/accessories/themes when the calling instance has snap-themes-control actively connected AND is root / logged in /
+   granted io.snapcraft.snapd.manage by polkit *)
+Theorem snap_socket_writes : forall e, In e api -> forall m x u,
+  m <> GET -> fst (serve e m x) = Handler -> peer x u -> u_socket u = snap_socket ->
+  ep_path e = bs "/v2/snapctl" \/
+  (ep_path e = bs "/v2/accessories/themes" /\ connected x [if_themes] /\ authenticated x u pk_manage).
+Proof.
+  intros e Hin m x u Hm H Hp Hs.
+  pose proof table_snap_writes as T. rewrite forallb_forall in T. specialize (T e Hin). unfold snap_write_ok in T.
+  pose proof (served_implies_declared e m x H) as (R & _ & _).
+  assert (Dw : declared e m = ep_write e) by (destruct m; try reflexivity; [congruence|cbn in R; discriminate]).
+  assert (Rw : ep_put e || ep_post e = true).
+  { destruct m; cbn [registered] in R; try congruence; rewrite R; [reflexivity|apply orb_true_r]. }
+  rewrite Rw in T. cbn [negb orb] in T.
+  destruct (snap_socket_only_gated e m x u H Hp Hs) as [A|(names & D & C)].
+  - rewrite Dw in A. rewrite A in T. left. apply abeq_true_iff. exact T.
+  - rewrite Dw in D. destruct D as [D|(k & D & Au)].
+    + rewrite D in T. discriminate.
+    + rewrite D in T. apply andb_true_iff in T. destruct T as [T T3]. apply andb_true_iff in T. destruct T as [T1 T2].
+      apply abeq_true_iff in T1. apply lb_eqb_eq in T2. apply abeq_true_iff in T3. subst names k. right. auto.
+Qed.
+
+(* ================================================================================================ what the handler finds attached *)
+
+Definition plain_name (i : bytes) : bool := forallb not_semi i && forallb not_amp i.
+
+Definition names_plain (a : access) : bool :=
+  match a with
+  | AIfaceOpen n | AIfaceAuth n _ => forallb plain_name n
+  | _ => true
+  end.
+
+Lemma fold_attach_ifaces : forall found s u l,
+  ucrednet_get_with_interfaces s = Some (u, l) -> Forall (fun i => plain_name i = true) found ->
+  exists l', ucrednet_get_with_interfaces (fold_left ucrednet_attach_interface found s) = Some (u, l') /\
+             forall i, In i l' -> In i l \/ In i found.
+Proof.
+  induction found as [|j found IH]; intros s u l G F; cbn [fold_left].
+  - exists l. auto.
+  - inversion F; subst. unfold plain_name in H1. apply andb_true_iff in H1. destruct H1 as [Hs Ha].
+    pose proof (attach_full_plain s u l j G Hs Ha) as G1.
+    destruct (IH _ u _ G1 H2) as (l' & G' & Hin). exists l'. split; [exact G'|].
+    intros i Hi. destruct (Hin i Hi) as [H|H]; [|right; right; exact H].
+    destruct (mem j l); [left; exact H|]. apply in_app_or in H. destruct H as [H|[H|[]]]; [left; exact H|right; left; exact H].
+Qed.
+
+Lemma matching_conn_connected : forall x sn names i,
+  x_snap_of_pid x = Some sn -> In i (matching_conns x sn names) -> connected x [i] /\ In i names.
+Proof.
+  intros x sn names i Hs Hin. unfold matching_conns in Hin. apply in_map_iff in Hin. destruct Hin as (c & <- & Hc).
+  apply filter_In in Hc. destruct Hc as [Hin Hc].
+  apply andb_true_iff in Hc. destruct Hc as [Hc H3]. apply andb_true_iff in Hc. destruct Hc as [H1 H2].
+  unfold conn_active in H1. apply negb_true_iff in H1. apply orb_false_iff in H1. destruct H1 as [H1a H1b].
+  apply mem_In in H2. apply abeq_true_iff in H3. split; [|exact H2].
+  exists sn, c. repeat split; auto. left. reflexivity.
+Qed.
+
+Lemma matching_conns_plain : forall x sn names, forallb plain_name names = true ->
+  Forall (fun i => plain_name i = true) (matching_conns x sn names).
+Proof.
+  intros x sn names H. apply Forall_forall. intros i Hin. unfold matching_conns in Hin.
+  apply in_map_iff in Hin. destruct Hin as (c & <- & Hc). apply filter_In in Hc. destruct Hc as [_ Hc].
+  apply andb_true_iff in Hc. destruct Hc as [Hc _]. apply andb_true_iff in Hc. destruct Hc as [_ Hm].
+  apply mem_In in Hm. rewrite forallb_forall in H. apply H. exact Hm.
+Qed.
+
+Lemma require_iface_attached : forall x u uc names d r',
+  forallb plain_name names = true ->
+  ucrednet_get_with_interfaces (x_remote x) = Some (u, []) ->
+  require_interface_api_access x (x_remote x) uc names = (d, r') ->
+  exists l', ucrednet_get_with_interfaces r' = Some (u, l') /\ forall i, In i l' -> connected x [i].
+Proof.
+  unfold require_interface_api_access. intros x u uc names d r' Hc G H.
+  assert (Triv : exists l', ucrednet_get_with_interfaces (x_remote x) = Some (u, l') /\ forall i, In i l' -> connected x [i])
+    by (exists []; split; [exact G|intros i []]).
+  destruct uc as [v|]; [|inversion H; subst; exact Triv].
+  destruct (beq (u_socket v) snapd_socket); [inversion H; subst; exact Triv|].
+  destruct (beq (u_socket v) snap_socket); [|inversion H; subst; exact Triv].
+  destruct (x_snap_of_pid x) as [sn|] eqn:S; [|inversion H; subst; exact Triv].
+  inversion H; subst.
+  destruct (fold_attach_ifaces _ _ u [] G (matching_conns_plain x sn names Hc)) as (l' & G' & Hin).
+  exists l'. split; [exact G'|]. intros i Hi. destruct (Hin i Hi) as [[]|Hm].
+  apply (matching_conn_connected x sn names i S Hm).
+Qed.
+
+(* when the address is what the listener printed for a real peer, every interface the handler finds attached to
+   r.RemoteAddr is one the calling instance has actively connected (plug side, exact instance) *)
+Theorem served_ifaces_are_connected : forall e m x r' u,
+  names_plain (declared e m) = true ->
+  x_remote x = print_ucred u -> 0 < u_pid u < 2147483648 -> u_uid u < 4294967295 -> forallb not_semi (u_socket u) = true ->
+  serve e m x = (Handler, r') ->
+  exists l', ucrednet_get_with_interfaces r' = Some (u, l') /\ forall i, In i l' -> connected x [i].
+Proof.
+  intros e m x r' u Hc Hx Hp Hu Hs H.
+  pose proof (ucred_roundtrip u Hp Hu Hs) as G. rewrite <- Hx in G.
+  assert (Triv : exists l', ucrednet_get_with_interfaces (x_remote x) = Some (u, l') /\ forall i, In i l' -> connected x [i])
+    by (exists []; split; [exact G|intros i []]).
+  unfold serve in H.
+  destruct (x_degraded x && negb (is_get m)); [discriminate|].
+  destruct (registered e m); cbn [negb] in H; [|discriminate].
+  destruct (declared e m) as [| |k| | |names|names k] eqn:A; cbn [check_access names_plain] in *; try discriminate.
+  - destruct (require_snapd_socket (ucrednet_get (x_remote x))); inversion H; subst; exact Triv.
+  - destruct (require_snapd_socket (ucrednet_get (x_remote x))); [inversion H|].
+    destruct (ucrednet_get (x_remote x)); [|inversion H]. destruct (auth_tail x u0 k); inversion H; subst; exact Triv.
+  - destruct (require_snapd_socket (ucrednet_get (x_remote x))); [inversion H|].
+    destruct (ucrednet_get (x_remote x)); [|inversion H]. destruct (u_uid u0 =? 0); inversion H; subst; exact Triv.
+  - destruct (ucrednet_get (x_remote x)); [|inversion H]. destruct (beq (u_socket u0) snap_socket); inversion H; subst; exact Triv.
+  - destruct (require_interface_api_access x (x_remote x) (ucrednet_get (x_remote x)) names) as [[d|] r''] eqn:R;
+      inversion H; subst. eapply require_iface_attached; eassumption.
+  - destruct (require_interface_api_access x (x_remote x) (ucrednet_get (x_remote x)) names) as [[d|] r''] eqn:R;
+      [inversion H|].
+    pose proof (require_iface_attached _ _ _ _ _ _ Hc G R) as K.
+    destruct (ucrednet_get (x_remote x)); [|inversion H]. destruct (auth_tail x u0 k); inversion H; subst; exact K.
+Qed.
+
+Lemma table_names_plain : forallb (fun e => names_plain (ep_read e) && names_plain (ep_write e)) api = true.
+Proof. vm_compute. reflexivity. Qed.
+
+(* computed: the generated noticeReadInterfaces lists, for each type, only interfaces the hand-written table lists *)
+Lemma notice_table_within_spec :
+  forallb (fun p => subset (snd p) (lookup_ifaces spec_notice_ifaces (fst p))) notice_read_interfaces = true.
+Proof. vm_compute. reflexivity. Qed.
+
+Lemma lookup_ifaces_in : forall tbl t i, In i (lookup_ifaces tbl t) -> exists v, In (t, v) tbl /\ In i v.
+Proof.
+  induction tbl as [|[k v] tbl IH]; intros t i H; cbn [lookup_ifaces] in H; [contradiction|].
+  destruct (beq k t) eqn:E.
+  - apply abeq_true_iff in E. subst k. exists v. split; [left; reflexivity|exact H].
+  - destruct (IH t i H) as (v' & H1 & H2). exists v'. split; [right; exact H1|exact H2].
+Qed.
+
+(* END TO END, over the actual table: a snap reaching any endpoint over snapd-snap.socket (address as printed by the
+   listener) gets noticeTypesViewableBySnap = true for a set of types only if, for EVERY requested type, the calling
+   instance has an active plug-side connection of an interface that the hand-written table lists for that type *)
+Theorem notices_types_need_connection : forall e, In e api -> forall m x r' u types t,
+  x_remote x = print_ucred u -> 0 < u_pid u < 2147483648 -> u_uid u < 4294967295 -> u_socket u = snap_socket ->
+  serve e m x = (Handler, r') ->
+  notice_types_viewable types r' = true -> In t types ->
+  exists i, In i (lookup_ifaces spec_notice_ifaces t) /\ connected x [i].
+Proof.
+  intros e Hin m x r' u types t Hx Hp Hu Hs H V Ht.
+  assert (Hc : names_plain (declared e m) = true).
+  { pose proof table_names_plain as T. rewrite forallb_forall in T. specialize (T e Hin).
+    apply andb_true_iff in T. destruct T as [T1 T2]. destruct m; cbn [declared names_plain]; auto. }
+  assert (Hsock : forallb not_semi (u_socket u) = true) by (rewrite Hs; vm_compute; reflexivity).
+  destruct (served_ifaces_are_connected e m x r' u Hc Hx Hp Hu Hsock H) as (l' & G & Hconn).
+  unfold notice_types_viewable in V. rewrite G in V. rewrite Hs in V. rewrite snapd_not_snap in V.
+  destruct (is_nil_b types); [discriminate|].
+  rewrite forallb_forall in V. specialize (V t Ht). apply existsb_exists in V. destruct V as (i & Hi & Hm).
+  apply mem_In in Hm. destruct (lookup_ifaces_in _ _ _ Hm) as (v & Hv & Hiv).
+  pose proof notice_table_within_spec as T. rewrite forallb_forall in T. specialize (T (t, v) Hv). cbn [fst snd] in T.
+  exists i. split; [eapply subset_In; eassumption|apply Hconn; exact Hi].
+Qed.
+
+(* ================================================================================================ snapctl: whose uid *)
+
+(* on the actual table: when /v2/snapctl's handler runs, the request came from a real peer on snapd-snap.socket and the
+   uid runSnapctl hands to ctlcmd.Run (C25's gate) is that peer's uid *)
+Theorem snapctl_uid_is_peer : forall e, In e api -> ep_path e = bs "/v2/snapctl" -> forall x r',
+  serve e POST x = (Handler, r') ->
+  exists u, peer x u /\ u_socket u = snap_socket /\ ucrednet_get r' = Some u /\ snapctl_uid r' = u_uid u.
+Proof.
+  intros e Hin Hpath x r' H.
+  assert (Hs : fst (serve e POST x) = Handler) by (rewrite H; reflexivity).
+  destruct (served_implies_policy e Hin POST x Hs) as (p & P & (u & Hp & L)).
+  rewrite Hpath in P. vm_compute in P. inversion P; subst p. cbn [level_ok] in L.
+  destruct (served_keeps_creds_api e Hin POST x r' H) as (K & _).
+  exists u. split; [exact Hp|]. split; [exact L|]. rewrite (peer_get x u Hp) in K. split; [exact K|].
+  unfold snapctl_uid. rewrite K. reflexivity.
+Qed.
